@@ -19,3 +19,28 @@ package preprocessor
 //@   requires stats.globalStats != nil && stats.globalStats.PreprocessorRoutines != nil
 //@   loop for invariant [gauge-live] @C17 adds(stats.globalStats.PreprocessorRoutines.count) == old(adds(stats.globalStats.PreprocessorRoutines.count)) + 1 && stats.globalStats != nil && stats.globalStats.PreprocessorRoutines != nil // C17: worker gauges equal the number of live workers
 //@   ensures [gauge-balanced] @C17 adds(stats.globalStats.PreprocessorRoutines.count) == old(adds(stats.globalStats.PreprocessorRoutines.count)) // C17: zero after stop
+
+// ---------------------------------------------------------------------------------------
+// C09: URL canonicalisation. The ada URL object is modelled by the trusted lib spec
+// /verif/contracts/lib/c09_goada.spec (ghost map hrefOf: object -> current serialisation).
+//
+// NormalizeURL: whatever is accepted went through the scheme / host gate, and the text stored
+// in URL.Raw is the serialisation taken after the fragment was cleared.
+//@ func NormalizeURL
+//@   property C09
+//@   requires [non-nil] URL != nil && (parentURL != nil ==> parentURL.parsed != nil)
+//@   requires [sentinels] ErrUnsupportedScheme != nil && ErrUnsupportedHost != nil
+//@   modifies URL.Raw, URL.parsed, mapof(goada.hrefTable()), qKeys, qPairs
+//@   ensures [gate-scheme] err == nil ==> goada.adaProtocol(URL.Raw) == "http:" || goada.adaProtocol(URL.Raw) == "https:" // C09: every accepted result is an absolute http or https URL
+//@   ensures [gate-host] err == nil ==> strings.Contains(goada.adaHostname(URL.Raw), ".") && goada.adaHostname(URL.Raw) != "localhost" && goada.adaHostname(URL.Raw) != "127.0.0.1" // C09: with a dotted, non-loopback host
+//@   ensures [nofragment] err == nil ==> !goada.adaHasHash(URL.Raw) // C09: and no fragment
+//@   let txt = strings.Trim(URL.Raw, `"'`)
+//@   let pp = parentURL.parsed
+//@   let ppScheme = parentURL.parsed.Scheme
+//@   let ppHost = parentURL.parsed.Host
+//@   let ppText = url.urlText(parentURL.parsed.Scheme, parentURL.parsed.Opaque, parentURL.parsed.User, parentURL.parsed.Host, parentURL.parsed.Path, parentURL.parsed.RawPath, parentURL.parsed.OmitHost, parentURL.parsed.ForceQuery, parentURL.parsed.RawQuery, parentURL.parsed.Fragment, parentURL.parsed.RawFragment)
+//@   ensures [resolve-path-absolute] err == nil && parentURL != nil && url.parsedScheme(txt) == "" && strings.HasPrefix(url.parsedPath(txt), "/") ==> URL.Raw == goada.adaSetHash(goada.adaParseBase(txt, ppScheme + "://" + ppHost), "") // C09: relative references (path-absolute, scheme-relative) resolve against the parent; a pure function of the URL text and its parent URL
+//@   ensures [resolve-relative] err == nil && parentURL != nil && url.parsedScheme(txt) == "" && !strings.HasPrefix(url.parsedPath(txt), "/") ==> URL.Raw == goada.adaSetHash(goada.adaParseBase(txt, ppText), "") // C09: relative references (path-relative with dot segments, query-only) resolve against the parent
+//@   ensures [reject-unparsable] !url.parsedOk(txt) ==> err != nil
+//@   ensures [parent-untouched] parentURL != nil && parentURL != URL ==> parentURL.Raw == old(parentURL.Raw) && parentURL.parsed == pp && pp.Scheme == ppScheme && pp.Host == ppHost
+//@   ensures [det-absolute] err == nil && (parentURL == nil || url.parsedScheme(txt) != "") && idna.toASCIIOk(url.parsedHost(txt)) && !models.isSignedHost(url.parsedHost(txt)) ==> URL.Raw == goada.adaSetHash(goada.adaParse(url.urlText(ite(url.parsedScheme(txt) == "", "http", url.parsedScheme(txt)), url.parsedOpaque(txt), url.parsedUser(txt), idna.toASCII(url.parsedHost(txt)), url.parsedPath(txt), url.parsedRawPath(txt), url.parsedOmitHost(txt), url.parsedForceQuery(txt), models.reenc(url.parsedRawQuery(txt)), url.parsedFragment(txt), url.parsedRawFragment(txt))), "") // C09: normalising a URL is a pure function of the URL text (absolute URL or no parent; relies on models.URLToString/post:order)
